@@ -171,6 +171,35 @@ def _trace_task(a) -> Dict[str, Any]:
             "events": events}
 
 
+def corrupt_traces(traces: List[Dict[str, Any]], n: int) -> List[Dict[str, Any]]:
+    """copies of recorded traces, each with one recorded answer altered: a presence answer flipped, or
+    a fetched value / path resolution replaced by the one of another key"""
+    import copy
+    res: List[Dict[str, Any]] = []
+    for t in traces:
+        if len(res) >= n:
+            break
+        want = ["has", "fetch", "fetch_paths"][len(res) % 3]
+        for (i, ev) in enumerate(t["events"]):
+            if ev["op"] != want:
+                continue
+            c = copy.deepcopy(t)
+            e = c["events"][i]
+            if want == "has" and e["ans"] in (True, False):
+                e["ans"] = not e["ans"]
+            elif want == "fetch" and isinstance(e["ans"], list) and e["ans"][0] == "V":
+                e["ans"] = ["V", [k for k in t["keys"] if k != e["ans"][1]][0]]
+            elif want == "fetch_paths" and isinstance(e["ans"], list) and e["ans"][0] == "M" and e["ans"][1]:
+                other = [k for k in t["keys"] if k != e["ans"][1][0][1]][0]
+                e["ans"] = ["M", [[e["ans"][1][0][0], other]] + e["ans"][1][1:]]
+            else:
+                continue
+            c["events"] = c["events"][: i + 1]
+            res.append(c)
+            break
+    return res
+
+
 def validate_traces(traces: List[Dict[str, Any]], name: str = "strace") -> Tuple[common.TLCResult, List[Dict[str, Any]]]:
     """One TLC run judges every trace (total steps: a mismatch names its clause in `verdict`).
     Returns (TLC result, list of rejected traces with the failing clause)."""
@@ -258,7 +287,15 @@ def run_c08(tier: str) -> int:
     ntr = 240 if tier == "quick" else 3000
     traces = record_traces(ntr, 25 if tier == "quick" else 40, seed,
                            [("local", 0), ("memory", 0), ("local", 2), ("memory", 3)])
-    (tr, rejected) = validate_traces(traces)
+    # binding self-test: copies of recorded traces with ONE recorded answer altered must be rejected
+    corrupted = corrupt_traces(traces, 6)
+    (tr, rejected) = validate_traces(traces + corrupted)
+    bad_ids = set(rj["trace_index"] for rj in rejected)
+    missed = [i for i in range(len(traces), len(traces) + len(corrupted)) if i not in bad_ids]
+    if missed or not corrupted:
+        raise MachineryError("binding self-test: %d of %d corrupted store traces were accepted by StoreTrace" % (len(missed), len(corrupted)))
+    rep.cov["corrupted_traces_rejected"] = len(corrupted)
+    rejected = [rj for rj in rejected if rj["trace_index"] < len(traces)]
     for rj in rejected:
         t = rj["trace"]
         ev = rj["event"] or {}
